@@ -1,7 +1,7 @@
 (* Properties_C09.v — the theorems that decide property C09 on the model, each stated in full and closed by
    `exact <lemma>`; the lemmas live in the Proofs_*.v files.  Nothing else belongs in this file. *)
 From Coq Require Import Sorting.Sorted.
-From Theo Require Import Base Regex Tokens Errors MacroExtract Grammar LR Gen_MacroGrammar Gen_Consts MacroApply SpecLex SpecMacro MacroStatements Proofs_Macro ApplyCompleteStatements CompileStatements ApplyStatements Proofs_ApplyComplete SugarStatements Lexer Scan Gen_Lexer LocErrStatements Proofs_Sugar.
+From Theo Require Import Base Regex Tokens Errors MacroExtract Grammar LR Gen_MacroGrammar Gen_Consts MacroApply SpecLex SpecMacro MacroStatements Proofs_Macro ApplyCompleteStatements CompileStatements ApplyStatements Proofs_ApplyComplete SugarStatements Lexer Scan Gen_Lexer LocErrStatements Proofs_Sugar PipelineStatements Proofs_Pipeline.
 Local Open Scope Z_scope.
 
 
@@ -130,3 +130,18 @@ Theorem C09_no_unknown_apply :
     apply_macros input defs passes = Ok (errs, out) -> no_unknown out.
 Proof. exact C09_no_unknown_apply_proof. Qed.
 Print Assumptions C09_no_unknown_apply.
+
+Theorem C09_pipeline :
+  forall files main out macros bins k mid,
+    front files main out macros bins -> Steps bins out 0 k mid ->
+    no_unknown mid /\
+    (forall pass out', try_bins false bins mid pass = Ok (Some out') ->
+       exists c, reported bins mid c /\ rewrite_with mid c pass out' /\
+         forall p ds d' loc' parts', In (p, ds) bins -> In d' ds ->
+           occurs_at (d_macro d') mid loc' parts' ->
+           p < prio c \/
+           (p = prio c /\ (loc c < Z.of_nat loc' \/ (loc c = Z.of_nat loc' /\ zlen (concat parts') <= len c)))) /\
+    (forall pass, try_bins false bins mid pass = Ok None ->
+       forall p ds d' loc' parts', In (p, ds) bins -> In d' ds -> ~ occurs_at (d_macro d') mid loc' parts').
+Proof. exact C09_pipeline_proof. Qed.
+Print Assumptions C09_pipeline.
